@@ -35,12 +35,13 @@ STATE_CLAUSES = {"OneHome", "IndexNamesHome", "HandlesAgree", "BackPointers", "N
 CLAUSE_RE = re.compile(r'^<<"CLAUSE", (-?\d+), (\d+), "(\w+)">>')
 
 
-def run_drivers(seed: int, nprog: int, nsteps: int, procs: int, outdir: str) -> List[str]:
+def run_drivers(seed: int, nprog: int, nsteps: int, procs: int, outdir: str, profile: str = "default") -> List[str]:
     os.makedirs(outdir, exist_ok=True)
     env = dict(os.environ)
     env["PYTHONPATH"] = "/repo:" + ROOT
     env["PHOTON_WEAVE_VERIF"] = "1"
     env["PYTHONHASHSEED"] = "0"
+    env["VERIF_DRIVER_PROFILE"] = profile
     per = max(1, (nprog + procs - 1) // procs)
 
     def one(k: int) -> str:
